@@ -47,11 +47,26 @@ HasDup(arg, vs, k, c) ==
    ELSE LET v == ValueOf(arg, vs[k]) IN
         IF Contains(c, v) THEN TRUE ELSE HasDup(arg, vs, k + 1, AddTo(arg.kind, c, v))
 
+\* level counter: every use without value adds one, a use with a value sets the level
+RECURSIVE LevelAfter(_, _, _, _)
+LevelAfter(arg, line, a, k) ==
+   IF k = 0 THEN arg.init
+   ELSE IF line[k].a # a THEN LevelAfter(arg, line, a, k - 1)
+   ELSE IF Len(line[k].vals) = 0 THEN LevelAfter(arg, line, a, k - 1) + 1
+   ELSE ValueOf(arg, line[k].vals[1])
+\* without "mix": either only increments, or one single use that sets the level; every level reached passes the checks
+LevelValid(arg, line, a) ==
+   LET U == UsesIdx(line, a) IN
+   /\ \A k \in U : Len(line[k].vals) <= 1 /\ (Len(line[k].vals) = 1 => ValueOK(arg, line[k].vals[1]))
+   /\ \A k \in U : Len(line[k].vals) = 0 => NumChecksOK(arg, LevelAfter(arg, line, a, k))
+   /\ (arg.mix \/ (\A k \in U : Len(line[k].vals) = 0) \/ Cardinality(U) = 1)
+
 Intended(cfg, line) ==
    [a \in 1..NArgs(cfg) |->
       LET arg == cfg.args[a] IN
       IF ~Used(line, a) THEN arg.init
       ELSE IF arg.kind = "flag" THEN ~arg.init
+      ELSE IF arg.kind = "level" THEN LevelAfter(arg, line, a, Len(line))
       ELSE IF IsContainer(arg.kind) THEN ContainerIntended(arg, AllVals(line, a, 1))
       ELSE LET v == ValueOf(arg, line[LastUse(line, a)].vals[1]) IN
            IF arg.kind = "optint" THEN <<v>> ELSE v]
@@ -70,6 +85,7 @@ ArgValid(cfg, line, a) ==
    LET arg == cfg.args[a]
        vs == AllVals(line, a, 1) IN
    IF ~Used(line, a) THEN ~arg.mand
+   ELSE IF arg.kind = "level" THEN ~arg.depr /\ LevelValid(arg, line, a) /\ CardOK(arg, Cardinality(UsesIdx(line, a)), Len(vs))
    ELSE /\ ~arg.depr
         /\ \A k \in UsesIdx(line, a) :
               IF arg.kind = "flag" THEN Len(line[k].vals) = 0
@@ -149,7 +165,7 @@ SpellFrom(cfg, line, k) ==
    ELSE {h \o t : h \in SpellUse(cfg, line[k]), t \in SpellFrom(cfg, line, k + 1)}
 \* grouping of adjacent short keys behind one dash: "-a" "-b" -> "-ab", "-a" "-n5"/"-n" -> "-an5"/"-an"
 IsShortFlagWord(cfg, w) == Len(w) >= 2 /\ w[1] = Dash /\ w[2] # Dash
-                           /\ \A k \in 2..Len(w) : \E a \in 1..NArgs(cfg) : cfg.args[a].s = w[k] /\ cfg.args[a].vm = "none"
+                           /\ \A k \in 2..Len(w) : \E a \in 1..NArgs(cfg) : cfg.args[a].s = w[k] /\ cfg.args[a].vm \in {"none", "opt"}
 IsShortKeyWord(cfg, w) == Len(w) >= 2 /\ w[1] = Dash /\ w[2] # Dash /\ \E a \in 1..NArgs(cfg) : cfg.args[a].s = w[2]
 Merges(cfg, ws) ==
    {SubSeq(ws, 1, k - 1) \o <<ws[k] \o Tail2(ws[k+1], 2)>> \o Tail2(ws, k + 2) :
